@@ -173,6 +173,21 @@ fn sub_init() -> Vec<u8> {
     c.raw()
 }
 
+/// init container whose header declares 4 data bytes and carries 1
+fn sub_init_truncated() -> Vec<u8> {
+    let mut c = Cont::simple(vec![0x5f, 0x5f, 0xee, 0x00], 2);
+    c.containers = vec![sub_runtime()];
+    c.data = vec![0x01];
+    c.data_hdr = 4;
+    c.raw()
+}
+/// a header that lists the container kind with a count of zero
+fn zero_container_count(body_len: usize) -> Vec<u8> {
+    let mut b = vec![0xef, 0x00, 0x01, 0x01, 0x00, 0x04, 0x02, 0x00, 0x01, 0x00, 0x01, 0x03, 0x00, 0x00, 0x04, 0x00, 0x00, 0x00];
+    b.extend_from_slice(&[0x00, 0x80, 0x00, 0x00, 0x00, 0xaa, 0xbb, 0xcc][..body_len.min(8)]);
+    b
+}
+
 #[derive(Default)]
 pub struct Out {
     /// C26 accumulator (decode / validate / execute)
@@ -474,11 +489,16 @@ fn jobs(tier: Tier) -> Vec<Job> {
     // mutants of well-formed containers of every shape
     let mut bases: Vec<Vec<u8>> = vec![sub_runtime(), sub_init()];
     {
-        let mut c = Cont::simple(vec![0x5f, 0x5f, 0xec, 0x00, 0x00], 2);
-        c.containers = vec![sub_init()];
-        c.data = vec![0x44; 4];
-        c.data_hdr = 4;
-        bases.push(c.raw());
+        // EOFCREATE of each kind of sub-container (value, salt, input offset, input size on the stack)
+        for sub in [sub_init(), sub_init_truncated(), sub_runtime()] {
+            let mut c = Cont::simple(vec![0x5f, 0x5f, 0x5f, 0x5f, 0xec, 0x00, 0x50, 0x00], 4);
+            c.containers = vec![sub];
+            c.data = vec![0x44; 4];
+            c.data_hdr = 4;
+            bases.push(c.raw());
+        }
+        // container kind present with a count of zero, followed by 0..=8 body bytes
+        bases.push(zero_container_count(8));
         let c2 = Cont { types: vec![(0, 0x80, 0), (0, 0, 0)], codes: vec![vec![0xe3, 0x00, 0x01, 0x00], vec![0xe4]], containers: vec![], data: vec![], data_hdr: 0 };
         bases.push(c2.raw());
         let c3 = Cont { types: vec![(0, 0x80, 1), (1, 1, 1), (0, 0x80, 0)], codes: vec![vec![0x5f, 0xe3, 0x00, 0x01, 0xe5, 0x00, 0x02], vec![0xe4], vec![0x00]], containers: vec![sub_runtime()], data: vec![0x55], data_hdr: 2 };
